@@ -115,6 +115,24 @@ class ScriptedDNS:
         return ans
 
 
+def same_dns_name(asked: str, want: str) -> bool:
+    """DNS-level equality of the name asked and the name the property states: case-insensitive, IDNA form or Unicode form
+    alike (a resolver converts either way); a trailing dot is only tolerated when a domain was given (the bare prefix must
+    stay relative, or the search list would not apply)."""
+    import dns.name
+
+    if asked == want:
+        return True
+    try:
+        a = dns.name.from_text(asked, origin=None)
+        w = dns.name.from_text(want, origin=None)
+    except Exception:
+        return False
+    if a.is_absolute() and want.count(".") > 3:
+        a = a.relativize(dns.name.root)
+    return a == w
+
+
 def oracle(records, got) -> t.Optional[str]:
     """records: list of (prio, weight, port, target-as-served). got: SrvRecord."""
     best_p = min(r[0] for r in records)
@@ -152,7 +170,7 @@ def check_case(rec: Recorder, dns_: ScriptedDNS, records, domain, loop, wit_extr
         for kind, name, rdtype, search in dns_.queries:  # (a repeated identical query is a retry, not a wrong question)
             if kind != api:
                 rec.violation(f"{api}-wrong-resolver", f"{api} lookup used the {kind} resolver", dict(wit, api=api))
-            if name != want_name or rdtype.upper() != "SRV":
+            if not same_dns_name(name, want_name) or rdtype.upper() != "SRV":
                 rec.violation(f"{api}-query-name", f"queried ({name!r}, {rdtype}) expected ({want_name!r}, SRV)", dict(wit, api=api))
             if not domain and not search:
                 rec.violation(f"{api}-search-list", f"no domain given but search={search!r}", dict(wit, api=api))
@@ -310,7 +328,7 @@ def run_api(rec: Recorder, dns_: ScriptedDNS, loop, rng) -> None:
                 want_domain = blob_domain if api in ("sync", "async") else "verif.test"  # unprotect looks up the blob's domain (not its forest)
                 exp_q = f"{PREFIX}.{want_domain}" if want_domain else PREFIX
                 for qn in {qq[1] for qq in dns_.queries}:
-                    if qn != exp_q:
+                    if not same_dns_name(qn, exp_q):
                         rec.violation("api-discovery-query", f"{api}: queried {qn!r}, expected {exp_q!r}", wit)
                 if connects[0][1] not in ok_hosts or connects[0][2] != 135:
                     rec.violation("api-discovery-host", f"{api}: connected to {connects[0]} but best hosts are {ok_hosts} (port 135)", wit)
